@@ -2,14 +2,11 @@ CONSTANTS
   Alphabet <- L1
   Core <- L1Core
   Mid <- L1Mid
-  MaxAll = 2
-  MaxMid = 3
-  MaxCore = 4
+  MaxAll = 40
+  MaxMid = 40
+  MaxCore = 40
   Wrappers <- NoWrap
   MaxWrap = 0
   MaxDeep = 0
 SPECIFICATION Spec
-INVARIANT Bounded
-INVARIANT Shape
-INVARIANT WrapsOK
 CHECK_DEADLOCK FALSE
